@@ -18,8 +18,61 @@ CONV = 'sedfitter.convolve.convolve.'
 
 @contract
 class CfWrite(Contract):
+    """ConvolvedFluxes.write(filename): the file gets the model names, the fluxes and the errors row for row and
+    aperture for aperture with their units, the apertures (if any) with their unit, the central wavelength in
+    micron and the numbers of models and apertures; the object is not modified.
+    (Byte format and read-back through ConvolvedFluxes.read: bounded run.)"""
     name = CF + '.write'
-    trusted = 'assumed (FITS I/O; round trip decided by the bounded run of C12): writes model names, fluxes, errors, apertures and central wavelength of this object to the named file'
+    properties = ('C07', 'C12')
+    variants = ('apertures', 'single')
+    modifies = ()
+
+    def setup(self, c, variant):
+        from .convolved import make_cf
+        return dict(self=make_cf(c, U['au'], n_ap=1 if variant == 'single' else None), filename='F.fits', overwrite=False)
+
+    def ensures(self, c, a, result, old):
+        from sedvc.extmodels import is_table
+        ev = [e for e in c.st.events if e[0] == 'fits.writeto']
+        has_ap = c.attr(a.self, '_apertures') is not None
+        out = {'written_once_to_the_named_file': len(ev) == 1 and ev[0][1] == 'F.fits' and len(ev[0][2]) == (3 if has_ap else 2)}
+        if not out['written_once_to_the_named_file']:
+            return out
+        hdus = ev[0][2]
+
+        def cols(h):
+            d = c.attr(h, 'data')
+            return c.st.heap[d.addr].attrs['@cols'] if is_table(c.st, d) else {}
+
+        def units_(h):
+            return [c.attr(x, 'unit') for x in c.st.heap[c.attr(h, 'columns').addr].items]
+        hdr0 = c.st.heap[c.attr(hdus[0], 'header').addr].items
+        cw = c.attr(a.self, '_wavelength')
+        names, fq, eq = c.A(c.attr(a.self, '_model_names')), c.attr(a.self, '_flux'), c.attr(a.self, '_error')
+        F, E = c.A(fq), c.A(eq)
+        out['central_wavelength_in_micron_and_counts'] = [compare('==', hdr0.get('FILTWAV') * U['micron'].scale, cw.value * cw.unit.scale),
+                                                          compare('==', hdr0.get('NMODELS'), names.n), compare('==', hdr0.get('NAP'), F.shape[1])]
+        c1 = cols(hdus[1])
+        ok = list(c1) == ['MODEL_NAME', 'TOTAL_FLUX', 'TOTAL_FLUX_ERR'] and c.attr(hdus[1], 'name') == 'CONVOLVED FLUXES'
+        out['table_has_the_documented_columns'] = ok
+        if not ok:
+            return out
+        inner = lambda v: v.value if isinstance(v, Quantity) else v
+        SN, SF, SE = c.A(inner(c1['MODEL_NAME'])), c.A(inner(c1['TOTAL_FLUX'])), c.A(inner(c1['TOTAL_FLUX_ERR']))
+        M, A = F.shape
+        out['rows_hold_name_flux_error_of_each_model'] = [compare('==', SN.n, M), compare('==', SF.shape[0], M), compare('==', SF.shape[1], A), compare('==', SE.shape[0], M), compare('==', SE.shape[1], A),
+                                                          c.forall(M, lambda m: SN[m] == names[m], 'names'),
+                                                          c.forall([M, A], lambda m, i: band(SF[m, i] == F[m, i], SE[m, i] == E[m, i]), 'cells')]
+        u1 = units_(hdus[1])
+        out['units_recorded'] = len(u1) == 3 and all(isinstance(x, Opaque) and x.tag == 'unitstr' for x in u1[1:]) and u1[1].info is fq.unit and u1[2].info is eq.unit
+        if has_ap:
+            aq = c.attr(a.self, '_apertures')
+            c2 = cols(hdus[2])
+            SA, AP = c.A(inner(c2.get('APERTURE'))), c.A(aq)
+            u2 = units_(hdus[2])
+            out['apertures_with_their_unit'] = [c.attr(hdus[2], 'name') == 'APERTURES', len(u2) == 1 and isinstance(u2[0], Opaque) and u2[0].info is aq.unit,
+                                                compare('==', SA.n, AP.n), c.forall(AP.n, lambda i: SA[i] == AP[i], 'apertures')]
+        return out
 
 
 def _filters(c, n=2):
